@@ -67,20 +67,21 @@ func (r *stubComp) RequestFuture(m interface{}, timeout time.Duration, tip strin
 // ---------------------------------------------------------------- node
 
 type cnode struct {
-	dir    string
-	cs     *chain.ChainService
-	cons   consensus.Consensus
-	keys   []*btcec.PrivateKey
-	addrs  [][]byte
-	nonces []uint64
-	queue  []types.Transaction // what the stub mempool hands to the block factory
-	ts     int64               // time of the last produced block (ns)
-	lpb    types.BlockNo
-	bpSize uint16
-	bpIdx  uint16
-	gbps   []string
-	cfg    *config.Config
-	open_  bool
+	dir     string
+	cs      *chain.ChainService
+	cons    consensus.Consensus
+	keys    []*btcec.PrivateKey
+	addrs   [][]byte
+	nonces  []uint64
+	queue   []types.Transaction // what the stub mempool hands to the block factory
+	ts      int64               // time of the last produced block (ns)
+	lpb     types.BlockNo
+	bpSize  uint16
+	bpIdx   uint16
+	gbps    []string
+	cfg     *config.Config
+	open_   bool
+	shifted bool // a sign verification was started and never waited for
 }
 
 var nodeSeq int
@@ -193,11 +194,25 @@ func (n *cnode) open(hf *config.HardforkConfig) (err error) {
 		}
 	}
 	n.open_ = true
+	n.shifted = false
 	return nil
 }
 
+// close waits until the sign-verifier goroutines are idle before the node is stopped: a verification that was started
+// for a block whose execution failed ends by putting its result into the result channel, and stopping closes it.
 func (n *cnode) close() {
 	if n.open_ {
+		need, pending := chain.VerifC19VerifyState(n.cs)
+		if need || n.shifted {
+			limit := 40
+			if need {
+				limit = 4000
+			}
+			for i := 0; pending != 1 && i < limit; i++ {
+				time.Sleep(50 * time.Microsecond)
+				_, pending = chain.VerifC19VerifyState(n.cs)
+			}
+		}
 		n.cs.BeforeStop() // closes the stores too (memorydb writes its file)
 		n.open_ = false
 	}
@@ -273,6 +288,9 @@ func (n *cnode) connectOwn(b *types.Block, bs *state.BlockState) error {
 
 func (n *cnode) receive(b *types.Block) error {
 	err := chain.VerifC19AddBlock(n.cs, b, nil, "peer")
+	if need, _ := chain.VerifC19VerifyState(n.cs); need {
+		n.shifted = true
+	}
 	if err == nil {
 		n.lpb = b.BlockNo()
 	}
